@@ -3,7 +3,8 @@
    a fact about Rust's type system and the crate's source, not about the model; what the model carries is proved here, the
    rest is checked by the correspondence harness (every generated object into six sinks, twice). *)
 From Coq Require Import NArith List.
-From ACPI Require Import Lib.Bytes Lib.Sx Impl.Checksum Impl.Sink Proofs.SinkP.
+From ACPI Require Import Lib.Bytes Lib.Sx Lib.Machine Impl.Checksum Impl.Fields Impl.Sink Impl.Sdt Impl.Gas Impl.Sink2
+  Spec.Layout Proofs.SinkP Proofs.SdtP Proofs.Sink2P.
 Import ListNotations.
 Open Scope N_scope.
 
@@ -35,3 +36,167 @@ Print Assumptions c14_chunking_invisible.
 Print Assumptions c14_vec_sink.
 Print Assumptions c14_checksum_sink.
 Print Assumptions c14_u8sum.
+
+(* ---------------- the two other sinks the crate implements ---------------- *)
+
+(* impl AmlSink for Sdt (byte = append::<u8>, everything else by the trait defaults): the table after any trace of sink
+   calls is the table after one append::<u8> per byte of the flattened stream, in order (None = a refused append, after
+   which nothing more happens); so two traces with the same concatenation leave the same table *)
+Theorem c14_sdt_sink :
+  forall md (t : list scall) (s : sdt_state),
+    run_sdt md s t = fold_left (sdt_append_byte md) (flatten t) (Some s) /\
+    (forall t2, flatten t = flatten t2 -> run_sdt md s t = run_sdt md s t2).
+Proof. intros md t s. split; [apply run_sdt_flat|intros t2 H; now apply run_sdt_chunking]. Qed.
+
+(* pushing a serialiser through the Sdt sink byte by byte gives the SAME table as ONE append_slice of its flattened bytes,
+   for every table of at least 36 bytes and every (non-empty, well-typed) trace that keeps it below 2^32 bytes; and that
+   table is: the old bytes followed by the stream (outside Length and Checksum), Length = its size, bytes summing to 0 *)
+Theorem c14_sdt_sink_is_append_slice :
+  forall md (v : sdt_state) (t : list scall),
+    (36 <= length v)%nat -> trace_ok t = true -> flatten t <> [] ->
+    N.of_nat (length v + length (flatten t)) < 2 ^ 32 ->
+    run_sdt md v t = sdt_append_slice md v (flatten t) /\
+    exists img, run_sdt md v t = Some img /\ appended_image v (flatten t) img.
+Proof.
+  intros md v t Hv Hok Hne Hsz. apply trace_ok_flat in Hok. split; [now apply run_sdt_is_append_slice|].
+  exists (sappend v (flatten t)). split; [|now apply sappend_appended_image].
+  apply run_sdt_sappend; try assumption. now apply lt32_lt64.
+Qed.
+
+(* the empty delivery too, when the table's header is up to date (e.g. any table that results from an append) *)
+Theorem c14_sdt_sink_is_append_slice_any_trace :
+  forall md (v : sdt_state) (t : list scall),
+    (36 <= length v)%nat -> sdt_canon v -> trace_ok t = true -> N.of_nat (length v + length (flatten t)) < 2 ^ 32 ->
+    run_sdt md v t = sdt_append_slice md v (flatten t).
+Proof. intros md v t Hv Hc Hok Hsz. apply trace_ok_flat in Hok. now apply run_sdt_is_append_slice_canon. Qed.
+
+Theorem c14_sdt_canon_after_append : forall v a, (36 <= length v)%nat -> sdt_canon (sappend v a).
+Proof. exact sappend_canon. Qed.
+
+(* impl AmlSink for PackageBuilder: data after the trace = data before ++ flattened stream, element counter untouched;
+   add_element = that, plus one on the counter *)
+Theorem c14_package_builder_sink :
+  forall (t : list scall) (s : pkgb_state),
+    pb_data (run_pkgb s t) = pb_data s ++ flatten t /\
+    pb_elements (run_pkgb s t) = pb_elements s /\
+    pkgb_add_element s t = mk_pkgb (pb_data s ++ flatten t) (pb_elements s + 1).
+Proof. intros t s. repeat split; [apply run_pkgb_data|apply run_pkgb_elements|apply pkgb_add_element_spec]. Qed.
+
+(* ---------------- raw form = serialised form ---------------- *)
+
+(* GAS is the one structure with both a derive (as_bytes: the packed fields in declaration order) and a hand-written
+   serialiser (byte, byte, byte, byte, qword): the two byte strings are equal for every field value
+   (register_bit_width and register_bit_offset are u8 fields; the two enum fields are cast `as u8` by the serialiser,
+   the address is any value), and u8sum of the structure is the arithmetic sum of either *)
+Theorem c14_gas_raw_is_serialised :
+  forall space width offset access addr, width < 256 -> offset < 256 ->
+    flatten (gas_ser space width offset access addr) = gas_raw space width offset access addr /\
+    u8sum_of (gas_ser space width offset access addr) = sum8 (gas_raw space width offset access addr).
+Proof. intros sp w o a addr Hw Ho. split; [now apply gas_raw_is_serialised|now apply u8sum_gas]. Qed.
+
+(* aml_as_bytes!(T): the serialiser is one slice call carrying the raw form, so serialised = raw and u8sum = sum of raw,
+   for every packed field list *)
+Theorem c14_as_bytes_raw_is_serialised :
+  forall f : flds, flatten (flds_ser f) = ser_flds f /\ u8sum_of (flds_ser f) = sum8 (ser_flds f).
+Proof. intros f. split; [apply flds_ser_flat|apply u8sum_flds]. Qed.
+
+(* hence a GAS handed to the Sdt sink through its serialiser = its raw form appended as one slice *)
+Theorem c14_gas_into_sdt :
+  forall md v space width offset access addr, width < 256 -> offset < 256 ->
+    (36 <= length v)%nat -> N.of_nat (length v + 12) < 2 ^ 32 ->
+    run_sdt md v (gas_ser space width offset access addr) = sdt_append_slice md v (gas_raw space width offset access addr).
+Proof. intros. now apply gas_into_sdt. Qed.
+
+(* chunking is invisible for GAS too: its four header bytes packed into ONE dword (shifts 8 / 16 / 24) then the qword
+   deliver the raw form, for every field value (a wrong shift does not: ex_gas below) *)
+Theorem c14_gas_packed_header :
+  forall space width offset access addr, space < 256 -> width < 256 -> offset < 256 -> access < 256 ->
+    flatten (gas_ser_packed 24 space width offset access addr) = gas_raw space width offset access addr.
+Proof. exact gas_packed_is_raw. Qed.
+
+(* the Sdt sink of this file is the function the correspondence harness compares with the crate (component 31, ops 5 / 6) *)
+Theorem c14_sdt_sink_is_the_judged_model :
+  forall md v,
+    (forall b bytes, sx_bytes b = Some bytes -> sdt_op md v (SL [SA 6; b]) = Some (run_sdt md v [SVec bytes])) /\
+    (forall x, sdt_op md v (SL [SA 5; SA 1; SA x]) = Some (run_sdt md v [SByte (x mod 256)]) /\
+               sdt_op md v (SL [SA 5; SA 2; SA x]) = Some (run_sdt md v [SWord x]) /\
+               sdt_op md v (SL [SA 5; SA 4; SA x]) = Some (run_sdt md v [SDword x]) /\
+               sdt_op md v (SL [SA 5; SA 8; SA x]) = Some (run_sdt md v [SQword x])).
+Proof. intros md v. split; [intros b bytes H; now apply sdt_op6_is_run_sdt|intros x; apply sdt_op5_is_run_sdt]. Qed.
+
+Print Assumptions c14_sdt_sink.
+Print Assumptions c14_sdt_sink_is_append_slice.
+Print Assumptions c14_sdt_sink_is_append_slice_any_trace.
+Print Assumptions c14_sdt_canon_after_append.
+Print Assumptions c14_package_builder_sink.
+Print Assumptions c14_gas_raw_is_serialised.
+Print Assumptions c14_as_bytes_raw_is_serialised.
+Print Assumptions c14_gas_into_sdt.
+Print Assumptions c14_gas_packed_header.
+Print Assumptions c14_sdt_sink_is_the_judged_model.
+
+(* ---------------- non-vacuity ---------------- *)
+(* a 36-byte table, and a 300-byte trace mixing all five entry points: the table grows 36 -> 336, across 256 *)
+Definition ex_ctor : sx :=
+  SL [SL [SA 84; SA 69; SA 83; SA 84]; SA 36; SA 1; SL [SA 67; SA 76; SA 79; SA 85; SA 68; SA 72];
+      SL [SA 84; SA 69; SA 83; SA 84; SA 84; SA 69; SA 83; SA 84]; SA 1].
+Definition ex_v36 : list N := match sdt_new ex_ctor with Some v => v | None => [] end.
+Definition ex_t300 : list scall :=
+  [SByte 0xAA; SWord 0xBBCC; SDword 0xDEADBEEF; SQword 0x0102030405060708; SVec (repeatN 0x5A 200); SWord 0x1234;
+   SVec (repeatN 0xFF 83)].
+(* the same 300 bytes, chunked differently *)
+Definition ex_t300_bytes : list scall := map SByte (flatten ex_t300).
+Definition ex_t300_one : list scall := [SVec (flatten ex_t300)].
+
+Example ex_hypotheses :
+  length ex_v36 = 36%nat /\ length (flatten ex_t300) = 300%nat /\ trace_ok ex_t300 = true /\ sdt_canon ex_v36.
+Proof. vm_compute. repeat split. Qed.
+
+Example ex_sdt_sink_crossing_256 :
+  run_sdt Checked ex_v36 ex_t300 = sdt_append_slice Checked ex_v36 (flatten ex_t300) /\
+  run_sdt Wrapping ex_v36 ex_t300 = run_sdt Checked ex_v36 ex_t300 /\
+  run_sdt Checked ex_v36 ex_t300_bytes = run_sdt Checked ex_v36 ex_t300 /\
+  run_sdt Checked ex_v36 ex_t300_one = run_sdt Checked ex_v36 ex_t300 /\
+  match run_sdt Checked ex_v36 ex_t300 with
+  | Some img => length img = 336%nat /\ field_at img 4 4 = 336 /\ nth 5 img 0 = 1 /\ sum8 img = 0 /\
+                skipn 36 img = flatten ex_t300 /\ firstn 4 img = firstn 4 ex_v36 /\
+                firstn 26 (skipn 10 img) = firstn 26 (skipn 10 ex_v36)
+  | None => False
+  end.
+Proof. vm_compute. repeat split. Qed.
+
+(* what the theorem excludes: a (hypothetical) Sdt sink that, instead of calling append, pushes the byte and adjusts
+   Length and Checksum incrementally on their low bytes only -- it agrees with append_slice as long as the table stays
+   below 256 bytes and differs as soon as Length carries into its second byte *)
+Definition incr_byte (d : list N) (b : N) : list N :=
+  let d1 := d ++ [b] in
+  let d2 := upd d1 4 ((nth 4 d1 0 + 1) mod 256) in
+  upd d2 9 (wsub8 (wsub8 (nth 9 d2 0) b) 1).
+
+Example ex_incremental_sink_below_256 :
+  Some (run_default incr_byte ex_v36 [SQword 0x0102030405060708; SVec (repeatN 0x5A 200)])
+  = sdt_append_slice Checked ex_v36 (flatten [SQword 0x0102030405060708; SVec (repeatN 0x5A 200)]).
+Proof. vm_compute. reflexivity. Qed.
+
+Example ex_incremental_sink_refuted :
+  Some (run_default incr_byte ex_v36 ex_t300) <> sdt_append_slice Checked ex_v36 (flatten ex_t300) /\
+  field_at (run_default incr_byte ex_v36 ex_t300) 4 4 = 80.
+Proof. split; [vm_compute; discriminate|vm_compute; reflexivity]. Qed.
+
+(* PackageBuilder: the same three chunkings, and add_element *)
+Example ex_package_builder :
+  run_pkgb (mk_pkgb [1; 2; 3] 7) ex_t300 = mk_pkgb ([1; 2; 3] ++ flatten ex_t300) 7 /\
+  run_pkgb (mk_pkgb [1; 2; 3] 7) ex_t300_bytes = run_pkgb (mk_pkgb [1; 2; 3] 7) ex_t300 /\
+  run_pkgb (mk_pkgb [1; 2; 3] 7) ex_t300_one = run_pkgb (mk_pkgb [1; 2; 3] 7) ex_t300 /\
+  pkgb_add_element pkgb_new [SByte 0x0A; SByte 5] = mk_pkgb [0x0A; 5] 1.
+Proof. vm_compute. repeat split. Qed.
+
+(* GAS: concrete values; the header packed into one dword with the right shifts is indistinguishable, with a wrong shift
+   (access_size << 16 instead of << 24) the obligation breaks *)
+Example ex_gas :
+  flatten (gas_ser 0x7F 0x40 0x03 0x04 0x1122334455667788) = [0x7F; 0x40; 0x03; 0x04; 0x88; 0x77; 0x66; 0x55; 0x44; 0x33; 0x22; 0x11] /\
+  gas_raw 0x7F 0x40 0x03 0x04 0x1122334455667788 = [0x7F; 0x40; 0x03; 0x04; 0x88; 0x77; 0x66; 0x55; 0x44; 0x33; 0x22; 0x11] /\
+  u8sum_of (gas_ser 0x7F 0x40 0x03 0x04 0x1122334455667788) = (0x7F + 0x40 + 0x03 + 0x04 + 0x88 + 0x77 + 0x66 + 0x55 + 0x44 + 0x33 + 0x22 + 0x11) mod 256 /\
+  flatten (gas_ser_packed 24 0x7F 0x40 0x03 0x04 0x1122334455667788) = gas_raw 0x7F 0x40 0x03 0x04 0x1122334455667788 /\
+  flatten (gas_ser_packed 16 0x7F 0x40 0x03 0x04 0x1122334455667788) <> gas_raw 0x7F 0x40 0x03 0x04 0x1122334455667788.
+Proof. repeat split; try (vm_compute; reflexivity). vm_compute. discriminate. Qed.
